@@ -15,8 +15,9 @@ static std::string esc(const char *s) {
   return o;
 }
 static void type_json(TypeIndex t) {
-  printf("{\"index\":%d,\"true_name\":\"%s\",\"name\":\"%s\",\"atomic\":%d,\"atomic_token\":%d,\"pointer\":%d,\"const\":%d,\"wrapped\":%d,\"enum\":%d,\"class\":%d",
-         t, esc(interrogate_type_true_name(t)).c_str(), esc(interrogate_type_name(t)).c_str(), interrogate_type_is_atomic(t),
+  printf("{\"index\":%d,\"array\":%d,\"array_size\":%d,\"true_name\":\"%s\",\"name\":\"%s\",\"atomic\":%d,\"atomic_token\":%d,\"pointer\":%d,\"const\":%d,\"wrapped\":%d,\"enum\":%d,\"class\":%d",
+         t, (int)interrogate_type_is_array(t), interrogate_type_is_array(t) ? interrogate_type_array_size(t) : 0,
+         esc(interrogate_type_true_name(t)).c_str(), esc(interrogate_type_name(t)).c_str(), interrogate_type_is_atomic(t),
          interrogate_type_is_atomic(t) ? (int)interrogate_type_atomic_token(t) : -1, interrogate_type_is_pointer(t), interrogate_type_is_const(t),
          interrogate_type_is_wrapped(t), interrogate_type_is_enum(t), (int)(interrogate_type_is_class(t) || interrogate_type_is_struct(t)));
   if (interrogate_type_is_wrapped(t)) { printf(",\"target\":"); type_json(interrogate_type_wrapped_type(t)); }
